@@ -258,6 +258,38 @@ func runC19(r *mon.Run) {
 		pow10Check(t, j)
 		t.Count("numdigits/giant")
 	})
+	// ... and the lengths at which a power of ten and a power of two nearly
+	// coincide (10^j within 2e-6 of 2^n, relatively): there the digit count
+	// turns on bits*log10(2) to eight or more significant digits, and an
+	// estimate from a rounded constant is off by one. The oracle is the
+	// definition: 10^j - 1 has j digits and 10^j has j+1, 2^(n-1) < 10^j <= 2^n - 1.
+	bigCoin := gen.CoincidenceExps(101001, r.N(2500000, 8000000), 2e-6)
+	r.Extra("numdigits_near_coincidence_lengths", fmt.Sprint(bigCoin))
+	r.Parallel("nd-coincidence-giant", int64(len(bigCoin)), func(t *mon.T) {
+		j := bigCoin[t.Index]
+		p := new(big.Int).Exp(bTen, big.NewInt(j), nil)
+		n := uint(p.BitLen())
+		for _, c := range []struct {
+			v    *big.Int
+			want int64
+			what string
+		}{{new(big.Int).Sub(p, bOne), j, "10^j-1"}, {p, j + 1, "10^j"}, {new(big.Int).Lsh(bOne, n-1), j, "2^(n-1)"},
+			{new(big.Int).Sub(new(big.Int).Lsh(bOne, n), bOne), j + 1, "2^n-1"}} {
+			var a apd.BigInt
+			a.SetMathBigInt(c.v)
+			got := apd.NumDigits(&a)
+			a.Neg(&a)
+			gotNeg := apd.NumDigits(&a)
+			t.EvalN(2)
+			if got != c.want || gotNeg != c.want {
+				t.Fail("numdigits-wrong", map[string]interface{}{"how": "coincidence-giant", "j": j, "bits": n, "value": c.what, "got": got, "got_negated": gotNeg, "want": c.want})
+				return
+			}
+		}
+		t.Count("numdigits/coincidence-giant")
+		t.Nontrivial(fmt.Sprintf("coin-giant|%d", j))
+	})
+	r.Require("numdigits/coincidence-giant", 5)
 	r.Parallel("nd-random", r.N(60000, 2000000), func(t *mon.T) {
 		var bits int
 		switch t.Rng.Pick(40, 30, 20, 8, 2) {
